@@ -38,7 +38,7 @@ LEVEL_TEXT = ("For each generated transform the complete single-failure space "
               "applied tree. Transforms themselves are sampled.")
 LEVEL_NOTE = ("Exhaustive per transform, sampled over transforms; double "
               "faults and failures inside rollback are outside the property.")
-REGISTERED = False
+REGISTERED = True
 NONTRIVIAL_FLOOR = {"quick": 400, "thorough": 10000}
 
 SIG_F8 = "C13/deletion-failure-before-inventory-update"
